@@ -8,7 +8,7 @@ macro_rules! core_ops3_impl {
             use super::ops::{finish_pub as finish, src_pub as src, windowed};
             #[allow(unused_imports)]
             use super::*;
-            use crate::c12::ops::Shape;
+            use crate::c12::ops::{Shape, draw};
             #[allow(unused_imports)]
             use poulpy_core::layouts::{
                 GGLWE, GGLWELayout, GGLWEPreparedFactory, GGLWEToGGSWKey, GGLWEToGGSWKeyPreparedFactory, GGSW, GGSWPreparedFactory,
@@ -414,7 +414,8 @@ macro_rules! core_ops3_impl {
                             }
                         } else {
                             let atk_infos = atk_layout(sh, rank);
-                            let atk = atk_real(c, sh, rank, 5, &mut big);
+                            // any odd Galois element (contract: `X -> X^k` for odd k, taken mod 2N)
+                            let atk = atk_real(c, sh, rank, draw::galois(sh.seed >> 44, sh.n), &mut big);
                             let mut ap = m.glwe_automorphism_key_prepared_alloc_from_infos(&atk);
                             m.glwe_automorphism_key_prepare(&mut ap, &atk, big.borrow());
                             if op == "ggsw_automorphism" {
@@ -431,7 +432,8 @@ macro_rules! core_ops3_impl {
                     "glwe_automorphism_key_automorphism" | "glwe_automorphism_key_automorphism_assign" => {
                         let rank = sh.rank_out;
                         let atk_infos = atk_layout(sh, rank);
-                        let atk = atk_real(c, sh, rank, 5, &mut big);
+                        // both elements are any odd integers (they may coincide, be inverses of each other, be 1 or -1)
+                        let atk = atk_real(c, sh, rank, draw::galois(sh.seed >> 44, sh.n), &mut big);
                         let mut ap = m.glwe_automorphism_key_prepared_alloc_from_infos(&atk);
                         m.glwe_automorphism_key_prepare(&mut ap, &atk, big.borrow());
                         // the key being transformed: radix b_in
@@ -457,7 +459,15 @@ macro_rules! core_ops3_impl {
                         {
                             let enc = EncryptionLayout::new_from_default_sigma(a_infos).unwrap();
                             let (s0, _) = skp(c, rank, sh.seed);
-                            m.glwe_automorphism_key_encrypt_sk(&mut a, 3, &s0, &enc, &mut src(sh.seed, 8), &mut src(sh.seed, 9), big.borrow());
+                            m.glwe_automorphism_key_encrypt_sk(
+                                &mut a,
+                                draw::galois(sh.seed >> 49, sh.n),
+                                &s0,
+                                &enc,
+                                &mut src(sh.seed, 8),
+                                &mut src(sh.seed, 9),
+                                big.borrow(),
+                            );
                         }
                         if op == "glwe_automorphism_key_automorphism" {
                             let mut res: GLWEAutomorphismKey<Vec<u8>> = GLWEAutomorphismKey::alloc_from_infos(&res_infos);
@@ -481,7 +491,7 @@ macro_rules! core_ops3_impl {
                         let in_infos = gl(sh.n, sh.b_in, sh.k_in, rank);
                         let out_infos = gl(sh.n, sh.b_res, sh.k_res, rank);
                         let atk_infos = atk_layout(sh, rank);
-                        let atk = atk_real(c, sh, rank, 5, &mut big);
+                        let atk = atk_real(c, sh, rank, draw::galois(sh.seed >> 44, sh.n), &mut big);
                         let mut ap = m.glwe_automorphism_key_prepared_alloc_from_infos(&atk);
                         m.glwe_automorphism_key_prepare(&mut ap, &atk, big.borrow());
                         let mut a: GLWE<Vec<u8>> = GLWE::alloc_from_infos(&in_infos);
@@ -646,7 +656,8 @@ macro_rules! core_ops3_impl {
                         let mut a: GLWE<Vec<u8>> = GLWE::alloc_from_infos(&a_infos);
                         a.fill_uniform(sh.b_in as usize, &mut src(sh.seed, 6));
                         let mut res: LWE<Vec<u8>> = LWE::alloc_from_infos(&res_infos);
-                        let idx = if op == "lwe_from_glwe_idx0" { 0 } else { 1 + (sh.extra as usize % (sh.n as usize - 1)) };
+                        // coefficient to extract: first, last, middle, anywhere in 1..N (index 0 takes another path: `_idx0`)
+                        let idx = if op == "lwe_from_glwe_idx0" { 0 } else { 1 + draw::index(sh.seed >> 12, sh.n as usize - 1) };
                         if op == "glwe_to_lwe_key_prepare" {
                             let declared = m.glwe_to_lwe_key_prepare_tmp_bytes(&key);
                             let r = windowed(declared, w, &mut |s| m.glwe_to_lwe_key_prepare(&mut kp, &key, s));
@@ -675,7 +686,7 @@ macro_rules! core_ops3_impl {
                         }
                         tsk.fill_uniform(sh.b_key as usize, &mut src(sh.seed, 7));
                         let mut tp = m.gglwe_to_ggsw_key_prepared_alloc_from_infos(&tsk);
-                        let (k_r, size_r, dnum_r) = gadget_ct(sh.b_res, sh.k_res, sh.extra);
+                        let (k_r, _size_r, dnum_r) = gadget_ct(sh.b_res, sh.k_res, sh.extra);
                         let res_infos = GGSWLayout {
                             n: Degree(sh.n),
                             base2k: Base2K(sh.b_res),
@@ -771,7 +782,7 @@ macro_rules! core_ops3_impl {
                     "glwe_automorphism_key_encrypt_sk" | "glwe_automorphism_key_prepare" => {
                         let rank = sh.rank_out;
                         let infos = atk_layout(sh, rank);
-                        let p: i64 = [5i64, -1, 3, 25][(sh.extra % 4) as usize];
+                        let p: i64 = draw::galois(sh.seed >> 44, sh.n);
                         if op == "glwe_automorphism_key_encrypt_sk" {
                             let mut atk: GLWEAutomorphismKey<Vec<u8>> = GLWEAutomorphismKey::alloc_from_infos(&infos);
                             let enc = EncryptionLayout::new_from_default_sigma(infos).unwrap();
@@ -846,7 +857,7 @@ macro_rules! core_ops3_impl {
 
             /// Ciphertext arithmetic: trace, packing, products, tensoring, shifts, rotations, noise.
             fn core_op3_c(op: &str, sh: &Shape, w: &Window) -> Option<RunResult> {
-                use poulpy_core::layouts::{GLWETensor, GLWETensorKey, GLWETensorKeyLayout, GLWETensorKeyPreparedFactory};
+                use poulpy_core::layouts::{GLWETensor, GLWETensorKey, GLWETensorKeyLayout, GLWETensorKeyPreparedFactory, LWEInfos};
                 use poulpy_core::{
                     GGLWENoise, GGSWNoise, GGSWRotate, GLWEMulConst, GLWEMulPlain, GLWEMulXpMinusOne, GLWENoise, GLWENormalize,
                     GLWEPacking, GLWERotate, GLWEShift, GLWETensorKeyEncryptSk, GLWETensoring, GLWETrace,
@@ -880,13 +891,28 @@ macro_rules! core_ops3_impl {
                     "glwe_pack" => {
                         let atk_infos = atk_layout(sh, rank);
                         let keys = auto_keys(c, sh, rank, &m.glwe_pack_galois_elements(), &mut big);
+                        let log_n = sh.n.trailing_zeros() as usize;
+                        // output gap: any of 0..=log_n (log_n: no merge level at all, only the trace)
+                        let log_gap_out = draw::index(sh.seed >> 20, log_n + 1);
+                        // occupied slots (the entry assert wants them below N; slot 0 is the one the result is read
+                        // from): every slot, every step-th slot, a random subset, slot 0 alone, slot 0 and the last
                         let step = 1 + (sh.extra as usize % 3);
-                        let mut cts: Vec<GLWE<Vec<u8>>> = (0..sh.n as usize)
-                            .step_by(step)
-                            .enumerate()
-                            .map(|(i, _)| {
+                        let slots: Vec<usize> = (0..sh.n as usize)
+                            .filter(|j| {
+                                *j == 0
+                                    || match (sh.seed >> 24) % 5 {
+                                        0 | 1 => j % step == 0,
+                                        2 => (sh.seed.rotate_left(*j as u32 % 64) ^ (*j as u64).wrapping_mul(0x9E37_79B9)) & 1 == 1,
+                                        3 => false,
+                                        _ => *j == sh.n as usize - 1,
+                                    }
+                            })
+                            .collect();
+                        let mut cts: Vec<GLWE<Vec<u8>>> = slots
+                            .iter()
+                            .map(|i| {
                                 let mut ct: GLWE<Vec<u8>> = GLWE::alloc_from_infos(&out_infos);
-                                ct.fill_uniform(sh.b_res as usize, &mut src(sh.seed ^ i as u64, 6));
+                                ct.fill_uniform(sh.b_res as usize, &mut src(sh.seed ^ *i as u64, 6));
                                 ct
                             })
                             .collect();
@@ -894,10 +920,10 @@ macro_rules! core_ops3_impl {
                         let declared = m.glwe_pack_tmp_bytes(&out_infos, &atk_infos);
                         let r = windowed(declared, w, &mut |s| {
                             let mut map: std::collections::HashMap<usize, &mut GLWE<Vec<u8>>> = std::collections::HashMap::new();
-                            for (i, ct) in cts.iter_mut().enumerate() {
-                                map.insert(step * i, ct);
+                            for (i, ct) in slots.iter().zip(cts.iter_mut()) {
+                                map.insert(*i, ct);
                             }
-                            m.glwe_pack(&mut res, map, 0, &keys, s)
+                            m.glwe_pack(&mut res, map, log_gap_out, &keys, s)
                         });
                         finish(r, declared, vec![res.data().data.clone()])
                     }
@@ -910,7 +936,8 @@ macro_rules! core_ops3_impl {
                                 *x = ((sx.next_i64() as u64) % (1u64 << sh.b_in)) as i64 - (1i64 << (sh.b_in - 1));
                             }
                         }
-                        let cnv_offset = sh.b_in as usize * ((sh.extra as usize >> 1) % 3) + (sh.seed as usize % sh.b_in as usize);
+                        // offset in bits: zero, below one limb, whole limbs, up to the whole product and beyond
+                        let cnv_offset = draw::bits(sh.seed >> 24, sh.b_in as usize, in_infos.size() + b_size);
                         let mut a: GLWE<Vec<u8>> = GLWE::alloc_from_infos(&in_infos);
                         a.fill_uniform(sh.b_in as usize, &mut src(sh.seed, 6));
                         if op == "glwe_mul_const" {
@@ -925,33 +952,40 @@ macro_rules! core_ops3_impl {
                         }
                     }
                     "glwe_mul_plain" | "glwe_mul_plain_assign" => {
-                        let k_b = sh.b_in * (1 + sh.extra % 3) - (sh.extra % sh.b_in.min(5));
+                        // plaintext: one to three limbs, the last one filled anywhere from one bit to completely
+                        let k_b = sh.b_in * (sh.extra % 3) + 1 + (sh.seed >> 28) as u32 % sh.b_in;
                         let pt_infos = gl(sh.n, sh.b_in, k_b, 0);
                         let mut pt: GLWEPlaintext<Vec<u8>> = GLWEPlaintext::alloc_from_infos(&pt_infos);
                         pt.data_mut().fill_uniform(sh.b_in as usize, &mut src(sh.seed, 5));
-                        let cnv_offset = sh.b_in as usize * ((sh.extra as usize >> 1) % 3) + (sh.seed as usize % sh.b_in as usize);
+                        let cnv_offset = draw::bits(sh.seed >> 24, sh.b_in as usize, in_infos.size() + pt_infos.size());
+                        // effective precision of the ciphertext: the contract is `ceil(k / base2k) == size`, i.e. anywhere
+                        // in the last limb (it selects the mask of the bottom limb)
+                        let a_eff = (sh.b_in * (in_infos.size() as u32 - 1) + 1 + (sh.seed >> 34) as u32 % sh.b_in) as usize;
                         let mut a: GLWE<Vec<u8>> = GLWE::alloc_from_infos(&in_infos);
                         a.fill_uniform(sh.b_in as usize, &mut src(sh.seed, 6));
                         if op == "glwe_mul_plain" {
                             let mut res: GLWE<Vec<u8>> = GLWE::alloc_from_infos(&out_infos);
                             let declared = m.glwe_mul_plain_tmp_bytes(&out_infos, &in_infos, &pt_infos);
                             let r = windowed(declared, w, &mut |s| {
-                                m.glwe_mul_plain(cnv_offset, &mut res, &a, sh.k_in as usize, &pt, k_b as usize, s)
+                                m.glwe_mul_plain(cnv_offset, &mut res, &a, a_eff, &pt, k_b as usize, s)
                             });
                             finish(r, declared, vec![res.data().data.clone()])
                         } else {
                             let declared = m.glwe_mul_plain_tmp_bytes(&in_infos, &in_infos, &pt_infos);
                             let r = windowed(declared, w, &mut |s| {
-                                m.glwe_mul_plain_assign(cnv_offset, &mut a, sh.k_in as usize, &pt, k_b as usize, s)
+                                m.glwe_mul_plain_assign(cnv_offset, &mut a, a_eff, &pt, k_b as usize, s)
                             });
                             finish(r, declared, vec![a.data().data.clone()])
                         }
                     }
                     "glwe_tensor_apply" | "glwe_tensor_apply_add_assign" | "glwe_tensor_square_apply" => {
                         let size_b = 1 + sh.extra % 3;
-                        let k_b = sh.b_in * size_b - (sh.seed as u32 % sh.b_in.min(5));
+                        // second operand: the last limb filled anywhere from one bit to completely
+                        let k_b = sh.b_in * (size_b - 1) + 1 + (sh.seed >> 28) as u32 % sh.b_in;
                         let b_infos = gl(sh.n, sh.b_in, k_b, rank);
-                        let cnv_offset = sh.b_in as usize * ((sh.extra as usize >> 1) % 3) + (sh.seed as usize % sh.b_in as usize);
+                        let cnv_offset = draw::bits(sh.seed >> 24, sh.b_in as usize, in_infos.size() + size_b as usize);
+                        // effective precision of the first operand: anywhere in its last limb (`ceil(k / base2k) == size`)
+                        let a_eff = (sh.b_in * (in_infos.size() as u32 - 1) + 1 + (sh.seed >> 34) as u32 % sh.b_in) as usize;
                         let mut a: GLWE<Vec<u8>> = GLWE::alloc_from_infos(&in_infos);
                         a.fill_uniform(sh.b_in as usize, &mut src(sh.seed, 6));
                         let mut b: GLWE<Vec<u8>> = GLWE::alloc_from_infos(&b_infos);
@@ -961,7 +995,7 @@ macro_rules! core_ops3_impl {
                             "glwe_tensor_apply" => {
                                 let declared = m.glwe_tensor_apply_tmp_bytes(&res, &in_infos, &b_infos);
                                 let r = windowed(declared, w, &mut |s| {
-                                    m.glwe_tensor_apply(cnv_offset, &mut res, &a, sh.k_in as usize, &b, k_b as usize, s)
+                                    m.glwe_tensor_apply(cnv_offset, &mut res, &a, a_eff, &b, k_b as usize, s)
                                 });
                                 finish(r, declared, vec![res.data().data.clone()])
                             }
@@ -969,14 +1003,14 @@ macro_rules! core_ops3_impl {
                                 res.fill_uniform(sh.b_res as usize, &mut src(sh.seed, 8));
                                 let declared = m.glwe_tensor_apply_tmp_bytes(&res, &in_infos, &b_infos);
                                 let r = windowed(declared, w, &mut |s| {
-                                    m.glwe_tensor_apply_add_assign(cnv_offset, &mut res, &a, sh.k_in as usize, &b, k_b as usize, s)
+                                    m.glwe_tensor_apply_add_assign(cnv_offset, &mut res, &a, a_eff, &b, k_b as usize, s)
                                 });
                                 finish(r, declared, vec![res.data().data.clone()])
                             }
                             _ => {
                                 let declared = m.glwe_tensor_square_apply_tmp_bytes(&res, &in_infos);
                                 let r = windowed(declared, w, &mut |s| {
-                                    m.glwe_tensor_square_apply(cnv_offset, &mut res, &a, sh.k_in as usize, s)
+                                    m.glwe_tensor_square_apply(cnv_offset, &mut res, &a, a_eff, s)
                                 });
                                 finish(r, declared, vec![res.data().data.clone()])
                             }
@@ -1006,7 +1040,6 @@ macro_rules! core_ops3_impl {
                         let mut a: GLWETensor<Vec<u8>> = GLWETensor::alloc_from_infos(&in_infos);
                         a.fill_uniform(sh.b_in as usize, &mut src(sh.seed, 6));
                         let mut res: GLWE<Vec<u8>> = GLWE::alloc_from_infos(&out_infos);
-                        use poulpy_core::layouts::LWEInfos;
                         if op == "glwe_tensor_key_prepare" {
                             let declared = m.prepare_tensor_key_tmp_bytes(&tsk_infos);
                             let r = windowed(declared, w, &mut |s| m.prepare_tensor_key(&mut tp, &tsk, s));
@@ -1017,7 +1050,9 @@ macro_rules! core_ops3_impl {
                             return Some(finish(r, declared, vec![res.data().data.clone()]));
                         }
                         m.prepare_tensor_key(&mut tp, &tsk, big.borrow());
-                        let sz = tp.size();
+                        // limbs of the product accumulator: the op carves `tsk_size` limbs where the query (which has
+                        // no such parameter) budgets `tsk.size()`: the contract is 1..=tsk.size() (first, last, middle)
+                        let sz = 1 + draw::index(sh.seed >> 20, tp.size());
                         let declared = m.glwe_tensor_relinearize_tmp_bytes(&out_infos, &a, &tsk_infos);
                         let r = windowed(declared, w, &mut |s| m.glwe_tensor_relinearize(&mut res, &a, &tp, sz, s));
                         finish(r, declared, vec![res.data().data.clone()])
@@ -1025,8 +1060,8 @@ macro_rules! core_ops3_impl {
                     "glwe_rotate_assign" | "glwe_mul_xp_minus_one_assign" | "glwe_normalize_assign" | "glwe_rsh" | "glwe_lsh_assign" => {
                         let mut a: GLWE<Vec<u8>> = GLWE::alloc_from_infos(&in_infos);
                         a.fill_uniform(sh.b_in as usize, &mut src(sh.seed, 6));
-                        let p = (sh.seed % (4 * sh.n as u64)) as i64 - 2 * sh.n as i64;
-                        let kbits = (sh.seed >> 8) as usize % (sh.k_in as usize + sh.b_in as usize);
+                        let p = draw::rotation(sh.seed >> 40, sh.n);
+                        let kbits = draw::bits(sh.seed >> 8, sh.b_in as usize, in_infos.size());
                         let (r, declared) = match op {
                             "glwe_rotate_assign" => {
                                 let d = m.glwe_rotate_tmp_bytes();
@@ -1059,7 +1094,8 @@ macro_rules! core_ops3_impl {
                         a.fill_uniform(sh.b_in as usize, &mut src(sh.seed, 6));
                         let mut res: GLWE<Vec<u8>> = GLWE::alloc_from_infos(&res_infos);
                         res.fill_uniform(sh.b_in as usize, &mut src(sh.seed, 7));
-                        let kbits = (sh.seed >> 8) as usize % (sh.k_in as usize + sh.b_in as usize);
+                        // (the amount may exceed the precision of either side: everything is shifted out)
+                        let kbits = draw::bits(sh.seed >> 8, sh.b_in as usize, if sh.seed & 1 == 0 { in_infos.size() } else { res_infos.size() });
                         let declared = m.glwe_shift_tmp_bytes();
                         let r = match op {
                             "glwe_lsh" => windowed(declared, w, &mut |s| m.glwe_lsh(&mut res, &a, kbits, s)),
@@ -1080,7 +1116,7 @@ macro_rules! core_ops3_impl {
                         };
                         let mut a: GGSW<Vec<u8>> = GGSW::alloc_from_infos(&a_infos);
                         a.fill_uniform(sh.b_in as usize, &mut src(sh.seed, 6));
-                        let p = (sh.seed % (4 * sh.n as u64)) as i64 - 2 * sh.n as i64;
+                        let p = draw::rotation(sh.seed >> 40, sh.n);
                         let declared = m.ggsw_rotate_tmp_bytes();
                         let r = windowed(declared, w, &mut |s| m.ggsw_rotate_assign(p, &mut a, s));
                         finish(r, declared, vec![ser(&a)])
@@ -1117,8 +1153,8 @@ macro_rules! core_ops3_impl {
                             };
                             let mut ct: GGLWE<Vec<u8>> = GGLWE::alloc_from_infos(&infos);
                             ct.fill_uniform(sh.b_key as usize, &mut src(sh.seed, 6));
-                            let row = sh.extra as usize % sh.dnum() as usize;
-                            let col = (sh.extra as usize >> 2) % sh.rank_in as usize;
+                            let row = draw::index(sh.seed >> 12, sh.dnum() as usize);
+                            let col = draw::index(sh.seed >> 16, sh.rank_in as usize);
                             let declared = m.gglwe_noise_tmp_bytes(&infos);
                             let r = windowed(declared, w, &mut |s| {
                                 let st = m.gglwe_noise(&ct, row, col, &pt, &sp, s);
@@ -1129,8 +1165,8 @@ macro_rules! core_ops3_impl {
                             let infos = ggsw_key_layout(sh, rank);
                             let mut ct: GGSW<Vec<u8>> = GGSW::alloc_from_infos(&infos);
                             ct.fill_uniform(sh.b_key as usize, &mut src(sh.seed, 6));
-                            let row = sh.extra as usize % sh.dnum() as usize;
-                            let col = (sh.extra as usize >> 2) % (rank as usize + 1);
+                            let row = draw::index(sh.seed >> 12, sh.dnum() as usize);
+                            let col = draw::index(sh.seed >> 16, rank as usize + 1);
                             let declared = m.ggsw_noise_tmp_bytes(&infos);
                             let r = windowed(declared, w, &mut |s| {
                                 let st = m.ggsw_noise(&ct, row, col, &pt, &sp, s);
@@ -1226,7 +1262,7 @@ macro_rules! core_ops3_impl {
                         let infos = atk_layout(sh, rank);
                         let enc = EncryptionLayout::new_from_default_sigma(infos).unwrap();
                         let (s0, _) = skp(c, rank, sh.seed);
-                        let p: i64 = [5i64, -1, 3, 25][(sh.extra % 4) as usize];
+                        let p: i64 = draw::galois(sh.seed >> 44, sh.n);
                         let mut key: GLWEAutomorphismKeyCompressed<Vec<u8>> = GLWEAutomorphismKeyCompressed::alloc_from_infos(&infos);
                         let declared = m.glwe_automorphism_key_compressed_encrypt_sk_tmp_bytes(&infos);
                         let r = windowed(declared, w, &mut |s| {
@@ -1346,11 +1382,14 @@ macro_rules! core_ops3_impl {
                 let size_in = sh.k_in.div_ceil(sh.b_in) as usize;
                 let size_res = sh.k_res.div_ceil(sh.b_res) as usize;
                 let cols = sh.rank_out as usize + 1;
-                let col = sh.extra as usize % cols;
+                // source and destination column are chosen independently (first, last, middle; equal or not)
+                let col = draw::index(sh.seed >> 4, cols);
+                let res_col = draw::index(sh.seed >> 6, cols);
                 let mut a: VecZnx<Vec<u8>> = VecZnx::alloc(n, cols, size_in);
                 a.fill_uniform(sh.b_in as usize, &mut src(sh.seed, 6));
-                let p = (sh.seed % (4 * sh.n as u64)) as i64 - 2 * sh.n as i64;
-                let kbits = (sh.seed >> 8) as usize % (sh.k_in as usize + sh.b_in as usize);
+                // odd Galois element: from a rotation amount, or one of the special values
+                let gal = if sh.seed & 1 == 0 { 2 * draw::rotation(sh.seed >> 40, sh.n) + 1 } else { draw::galois(sh.seed >> 44, sh.n) };
+                let kbits = draw::bits(sh.seed >> 8, sh.b_in as usize, if sh.seed & 2 == 0 { size_in } else { size_res });
                 macro_rules! bytes_of {
                     ($x:expr) => {{
                         let d: &[u8] = $x.data().as_ref();
@@ -1361,10 +1400,11 @@ macro_rules! core_ops3_impl {
                     "hal_vec_znx_normalize" => {
                         let mut res: VecZnx<Vec<u8>> = VecZnx::alloc(n, cols, size_res);
                         res.fill_uniform(sh.b_res as usize, &mut src(sh.seed, 7));
-                        let off = (sh.seed >> 16) as i64 % (2 * sh.b_res as i64 + 1) - sh.b_res as i64;
+                        // offset: zero, within a limb, whole limbs, the whole precision of either side and beyond, either sign
+                        let off = draw::offset(sh.seed >> 16, sh.b_in as usize, if sh.seed & 4 == 0 { size_in } else { size_res });
                         let declared = m.vec_znx_normalize_tmp_bytes();
                         let r = windowed(declared, w, &mut |s| {
-                            m.vec_znx_normalize(&mut res, sh.b_res as usize, off, col, &a, sh.b_in as usize, col, s)
+                            m.vec_znx_normalize(&mut res, sh.b_res as usize, off, res_col, &a, sh.b_in as usize, col, s)
                         });
                         finish(r, declared, vec![res.data.clone()])
                     }
@@ -1376,21 +1416,21 @@ macro_rules! core_ops3_impl {
                         if op == "hal_vec_znx_big_normalize" {
                             let mut res: VecZnx<Vec<u8>> = VecZnx::alloc(n, cols, size_res);
                             res.fill_uniform(sh.b_res as usize, &mut src(sh.seed, 7));
-                            let off = (sh.seed >> 16) as i64 % (2 * sh.b_res as i64 + 1) - sh.b_res as i64;
+                            let off = draw::offset(sh.seed >> 16, sh.b_in as usize, if sh.seed & 4 == 0 { size_in } else { size_res });
                             let declared = m.vec_znx_big_normalize_tmp_bytes();
                             let r = windowed(declared, w, &mut |s| {
-                                m.vec_znx_big_normalize(&mut res, sh.b_res as usize, off, col, &ab, sh.b_in as usize, col, s)
+                                m.vec_znx_big_normalize(&mut res, sh.b_res as usize, off, res_col, &ab, sh.b_in as usize, col, s)
                             });
                             finish(r, declared, vec![res.data.clone()])
                         } else {
                             let declared = m.vec_znx_big_automorphism_assign_tmp_bytes();
-                            let r = windowed(declared, w, &mut |s| m.vec_znx_big_automorphism_assign(2 * p + 1, &mut ab, col, s));
+                            let r = windowed(declared, w, &mut |s| m.vec_znx_big_automorphism_assign(gal, &mut ab, col, s));
                             finish(r, declared, vec![bytes_of!(ab)])
                         }
                     }
                     "hal_vec_znx_automorphism_assign" => {
                         let declared = m.vec_znx_automorphism_assign_tmp_bytes();
-                        let r = windowed(declared, w, &mut |s| m.vec_znx_automorphism_assign(2 * p + 1, &mut a, col, s));
+                        let r = windowed(declared, w, &mut |s| m.vec_znx_automorphism_assign(gal, &mut a, col, s));
                         finish(r, declared, vec![a.data.clone()])
                     }
                     "hal_vec_znx_rsh" | "hal_vec_znx_rsh_add_into" | "hal_vec_znx_rsh_sub" | "hal_vec_znx_lsh" | "hal_vec_znx_lsh_add_into"
@@ -1400,16 +1440,16 @@ macro_rules! core_ops3_impl {
                         let b = sh.b_in as usize;
                         let declared = if op.contains("rsh") { m.vec_znx_rsh_tmp_bytes() } else { m.vec_znx_lsh_tmp_bytes() };
                         let r = match op {
-                            "hal_vec_znx_rsh" => windowed(declared, w, &mut |s| m.vec_znx_rsh(b, kbits, &mut res, col, &a, col, s)),
+                            "hal_vec_znx_rsh" => windowed(declared, w, &mut |s| m.vec_znx_rsh(b, kbits, &mut res, res_col, &a, col, s)),
                             "hal_vec_znx_rsh_add_into" => {
-                                windowed(declared, w, &mut |s| m.vec_znx_rsh_add_into(b, kbits, &mut res, col, &a, col, s))
+                                windowed(declared, w, &mut |s| m.vec_znx_rsh_add_into(b, kbits, &mut res, res_col, &a, col, s))
                             }
-                            "hal_vec_znx_rsh_sub" => windowed(declared, w, &mut |s| m.vec_znx_rsh_sub(b, kbits, &mut res, col, &a, col, s)),
-                            "hal_vec_znx_lsh" => windowed(declared, w, &mut |s| m.vec_znx_lsh(b, kbits, &mut res, col, &a, col, s)),
+                            "hal_vec_znx_rsh_sub" => windowed(declared, w, &mut |s| m.vec_znx_rsh_sub(b, kbits, &mut res, res_col, &a, col, s)),
+                            "hal_vec_znx_lsh" => windowed(declared, w, &mut |s| m.vec_znx_lsh(b, kbits, &mut res, res_col, &a, col, s)),
                             "hal_vec_znx_lsh_add_into" => {
-                                windowed(declared, w, &mut |s| m.vec_znx_lsh_add_into(b, kbits, &mut res, col, &a, col, s))
+                                windowed(declared, w, &mut |s| m.vec_znx_lsh_add_into(b, kbits, &mut res, res_col, &a, col, s))
                             }
-                            _ => windowed(declared, w, &mut |s| m.vec_znx_lsh_sub(b, kbits, &mut res, col, &a, col, s)),
+                            _ => windowed(declared, w, &mut |s| m.vec_znx_lsh_sub(b, kbits, &mut res, res_col, &a, col, s)),
                         };
                         finish(r, declared, vec![res.data.clone()])
                     }
@@ -1420,7 +1460,7 @@ macro_rules! core_ops3_impl {
                         }
                         let mut res = m.vec_znx_big_alloc(cols, size_res);
                         let declared = m.vec_znx_idft_apply_tmp_bytes();
-                        let r = windowed(declared, w, &mut |s| m.vec_znx_idft_apply(&mut res, col, &ad, col, s));
+                        let r = windowed(declared, w, &mut |s| m.vec_znx_idft_apply(&mut res, res_col, &ad, col, s));
                         finish(r, declared, vec![bytes_of!(res)])
                     }
                     "hal_vmp_prepare" | "hal_vmp_apply_dft_to_dft" | "hal_vmp_apply_dft" => {
@@ -1448,7 +1488,8 @@ macro_rules! core_ops3_impl {
                         }
                         m.vmp_prepare(&mut pm, &mat, big.borrow());
                         if op == "hal_vmp_apply_dft_to_dft" {
-                            let limb_offset = (sh.extra as usize >> 1) % 2;
+                            // limb offset into the matrix rows: first, last, middle, and one at / past the end (all-zero result)
+                            let limb_offset = draw::index(sh.seed >> 28, size_key + 2);
                             let declared = m.vmp_apply_dft_to_dft_tmp_bytes(size_res, size_in, rows, cols_in, cols_out, size_key);
                             let r = windowed(declared, w, &mut |s| m.vmp_apply_dft_to_dft(&mut res, &xd, &pm, limb_offset, s));
                             finish(r, declared, vec![bytes_of!(res)])
@@ -1487,20 +1528,24 @@ macro_rules! core_ops3_impl {
                         }
                         m.cnv_prepare_left(&mut ap, &a, mask, big.borrow());
                         m.cnv_prepare_right(&mut bp, &b, mask, big.borrow());
-                        let cnv_offset = (sh.extra as usize >> 2) % 2;
-                        // result length: anything from 1 limb to the full product
-                        let full = size_in + size_b - cnv_offset;
-                        let res_size = 1 + (sh.seed as usize >> 20) % full;
-                        let mut res = m.vec_znx_dft_alloc(1, res_size);
+                        // offset in limbs ("scaled by 2^{cnv_offset * Base2K}"): none, one, the middle, the last limb of the
+                        // full product, and one past it (the implementations clamp it to a_size + b_size - 1)
+                        let cnv_offset = draw::index(sh.seed >> 28, size_in + size_b + 1);
+                        // result length: anything from 1 limb to the full product and one more ("truncated accordingly")
+                        let res_size = 1 + (sh.seed as usize >> 20) % (size_in + size_b + 1);
+                        // the result is one column of a vector with several; the operands' columns are independent
+                        let b_col = draw::index(sh.seed >> 10, cols);
+                        let mut res = m.vec_znx_dft_alloc(cols, res_size);
                         if op == "hal_cnv_apply_dft" {
                             let declared = m.cnv_apply_dft_tmp_bytes(cnv_offset, res_size, size_in, size_b);
-                            let r = windowed(declared, w, &mut |s| m.cnv_apply_dft(cnv_offset, &mut res, 0, &ap, col, &bp, col, s));
+                            let r = windowed(declared, w, &mut |s| m.cnv_apply_dft(cnv_offset, &mut res, res_col, &ap, col, &bp, b_col, s));
                             finish(r, declared, vec![bytes_of!(res)])
                         } else {
-                            let j = (col + 1) % cols;
+                            // i <= j as every caller has it; i == j is the documented short cut to cnv_apply_dft
+                            let j = b_col;
                             let declared = m.cnv_pairwise_apply_dft_tmp_bytes(cnv_offset, res_size, size_in, size_b);
                             let r = windowed(declared, w, &mut |s| {
-                                m.cnv_pairwise_apply_dft(cnv_offset, &mut res, 0, &ap, &bp, col.min(j), col.max(j), s)
+                                m.cnv_pairwise_apply_dft(cnv_offset, &mut res, res_col, &ap, &bp, col.min(j), col.max(j), s)
                             });
                             finish(r, declared, vec![bytes_of!(res)])
                         }
@@ -1514,12 +1559,11 @@ macro_rules! core_ops3_impl {
                                 *x = ((sx.next_i64() as u64) % (1u64 << sh.b_in)) as i64 - (1i64 << (sh.b_in - 1));
                             }
                         }
-                        let cnv_offset = (sh.extra as usize >> 2) % 2;
-                        let full = size_in + size_b - cnv_offset;
-                        let res_size = 1 + (sh.seed as usize >> 20) % full;
-                        let mut res = m.vec_znx_big_alloc(1, res_size);
+                        let cnv_offset = draw::index(sh.seed >> 28, size_in + size_b + 1);
+                        let res_size = 1 + (sh.seed as usize >> 20) % (size_in + size_b + 1);
+                        let mut res = m.vec_znx_big_alloc(cols, res_size);
                         let declared = m.cnv_by_const_apply_tmp_bytes(cnv_offset, res_size, size_in, size_b);
-                        let r = windowed(declared, w, &mut |s| m.cnv_by_const_apply(cnv_offset, &mut res, 0, &a, col, &b, s));
+                        let r = windowed(declared, w, &mut |s| m.cnv_by_const_apply(cnv_offset, &mut res, res_col, &a, col, &b, s));
                         finish(r, declared, vec![bytes_of!(res)])
                     }
                     _ => return core_op3_f(op, sh, w),
@@ -1575,8 +1619,10 @@ macro_rules! core_ops3_impl {
                     }
                     "blind_rotation_execute" | "blind_rotation_execute_extended" | "blind_rotation_key_encrypt_sk" | "blind_rotation_key_prepare" => {
                         let rank = sh.rank_out.min(2);
-                        let n_lwe = sh.n_lwe.max(2);
-                        let block = if n_lwe % 3 == 0 { 3 } else if n_lwe % 2 == 0 { 2 } else { 1 };
+                        // block size 1..4 of the block-binary LWE secret; the LWE dimension is a multiple of it (the
+                        // key is consumed block by block)
+                        let block = 1 + (sh.seed >> 36) as u32 % 4;
+                        let n_lwe = sh.n_lwe.max(2).next_multiple_of(block);
                         let brk_infos = BlindRotationKeyLayout {
                             n_glwe: Degree(sh.n),
                             n_lwe: Degree(n_lwe),
@@ -1599,7 +1645,8 @@ macro_rules! core_ops3_impl {
                         }
                         m.blind_rotation_key_encrypt_sk(&mut brk, &sp, &sk_lwe, &enc, &mut src(sh.seed, 3), &mut src(sh.seed, 4), big.borrow());
                         let mut bp: BlindRotationKeyPrepared<DeviceBuf<BE>, CGGI, BE> = BlindRotationKeyPrepared::alloc(m, &brk);
-                        let ext: usize = if op == "blind_rotation_execute_extended" { 2 } else { 1 };
+                        // extension factor: "a non-zero power of two" (2, 4 or 8 for the extended op)
+                        let ext: usize = if op == "blind_rotation_execute_extended" { [2usize, 4, 2, 8][(sh.seed >> 38) as usize % 4] } else { 1 };
                         let res_infos = gl(sh.n, sh.b_key, sh.k_res.max(2), rank);
                         let lwe_b = 3 + sh.extra;
                         let lwe_infos = LWELayout {
@@ -1609,15 +1656,19 @@ macro_rules! core_ops3_impl {
                         };
                         let mut lwe: LWE<Vec<u8>> = LWE::alloc_from_infos(&lwe_infos);
                         lwe.fill_uniform(lwe_b as usize, &mut src(sh.seed, 6));
+                        // table: one limb or two (narrower / as wide as / wider than the result), 1, 2, 4 or N entries
+                        // (a power of two, so that the steps tile the domain), 1..6 message bits
+                        let lut_k = if (sh.seed >> 41) & 1 == 0 { sh.b_key } else { sh.b_key + 1 + (sh.seed >> 42) as u32 % sh.b_key };
                         let lut_infos = LookUpTableLayout {
                             n: Degree(sh.n),
                             extension_factor: ext,
-                            k: TorusPrecision(sh.b_key),
+                            k: TorusPrecision(lut_k),
                             base2k: Base2K(sh.b_key),
                         };
                         let mut lut: LookupTable = LookupTable::alloc(&lut_infos);
-                        let f: Vec<i64> = (0..4).map(|i| 2 * i + 1).collect();
-                        lut.set(m, &f, 3);
+                        let f_len = [1usize, 2, 4, sh.n as usize][(sh.seed >> 46) as usize % 4];
+                        let f: Vec<i64> = (0..f_len as i64).map(|i| if i % 3 == 2 { -(2 * i + 1) } else { 2 * i + 1 }).collect();
+                        lut.set(m, &f, 1 + (sh.seed >> 48) as usize % (sh.b_key as usize).min(6));
                         let mut res: GLWE<Vec<u8>> = GLWE::alloc_from_infos(&res_infos);
                         if op == "blind_rotation_key_prepare" {
                             let declared = m.blind_rotation_key_prepare_tmp_bytes(&brk_infos);
@@ -1633,33 +1684,64 @@ macro_rules! core_ops3_impl {
                         finish(r, declared, vec![res.data().data.clone()])
                     }
                     "fhe_uint_encrypt_sk" | "fhe_uint_decrypt" => {
-                        let infos = gl(sh.n, sh.b_res, sh.k_res, rank);
-                        let enc = EncryptionLayout::new_from_default_sigma(infos).unwrap();
-                        let (_s, sp) = skp(c, rank, sh.seed);
-                        let mut word: FheUint<Vec<u8>, u8> = FheUint::alloc_from_infos(&infos);
-                        if op == "fhe_uint_encrypt_sk" {
-                            let declared = word.encrypt_sk_tmp_bytes(m);
-                            let r = windowed(declared, w, &mut |s| {
-                                word.encrypt_sk(m, sh.seed as u8, &sp, &enc, &mut src(sh.seed, 3), &mut src(sh.seed, 4), s)
-                            });
-                            let bytes: Vec<u8> = {
-                                use poulpy_core::layouts::GLWEToRef;
-                                let g = word.to_ref();
-                                let d: &[u8] = g.data().data;
-                                d.to_vec()
-                            };
-                            finish(r, declared, vec![bytes])
-                        } else {
-                            word.encrypt_sk(m, sh.seed as u8, &sp, &enc, &mut src(sh.seed, 3), &mut src(sh.seed, 4), big.borrow());
-                            let declared = word.decrypt_tmp_bytes(m);
-                            let mut out = 0u8;
-                            let r = windowed(declared, w, &mut |s| out = word.decrypt(m, &sp, s));
-                            finish(r, declared, vec![vec![out]])
+                        // every word type whose bits fit the ring (N a multiple of the word size)
+                        let fits: Vec<u32> = [8u32, 16, 32, 64, 128].into_iter().filter(|b| *b <= sh.n).collect();
+                        match fits[(sh.seed >> 50) as usize % fits.len()] {
+                            128 => fhe_uint_enc_dec::<u128>(op, sh, w, c),
+                            64 => fhe_uint_enc_dec::<u64>(op, sh, w, c),
+                            32 => fhe_uint_enc_dec::<u32>(op, sh, w, c),
+                            16 => fhe_uint_enc_dec::<u16>(op, sh, w, c),
+                            _ => fhe_uint_enc_dec::<u8>(op, sh, w, c),
                         }
                     }
                     _ => return core_op3_g(op, sh, w),
                 };
                 Some(r)
+            }
+
+            /// `FheUint::{encrypt_sk, decrypt}` on a word of type `T`.
+            fn fhe_uint_enc_dec<T>(op: &str, sh: &Shape, w: &Window, c: &Ctx) -> RunResult
+            where
+                T: poulpy_bin_fhe::bdd_arithmetic::UnsignedInteger + poulpy_bin_fhe::bdd_arithmetic::ToBits + poulpy_bin_fhe::bdd_arithmetic::FromBits,
+            {
+                let m = &c.module;
+                let mut big: ScratchOwned<BE> = ScratchOwned::alloc(1 << 22);
+                let rank = sh.rank_out;
+                let infos = gl(sh.n, sh.b_res, sh.k_res, rank);
+                let enc = EncryptionLayout::new_from_default_sigma(infos).unwrap();
+                let (_s, sp) = skp(c, rank, sh.seed);
+                // the value: all zero, all one, or random bits
+                let bits: Vec<u8> = (0..T::BITS as usize)
+                    .map(|i| match (sh.seed >> 54) % 4 {
+                        0 => 0,
+                        1 => 1,
+                        _ => ((sh.seed.rotate_left(i as u32 / 64 * 13) >> (i % 64)) & 1) as u8,
+                    })
+                    .collect();
+                let value = T::from_bits(&bits);
+                let mut word: FheUint<Vec<u8>, T> = FheUint::alloc_from_infos(&infos);
+                if op == "fhe_uint_encrypt_sk" {
+                    let declared = word.encrypt_sk_tmp_bytes(m);
+                    let r = windowed(declared, w, &mut |s| {
+                        word.encrypt_sk(m, value, &sp, &enc, &mut src(sh.seed, 3), &mut src(sh.seed, 4), s)
+                    });
+                    let bytes: Vec<u8> = {
+                        use poulpy_core::layouts::GLWEToRef;
+                        let g = word.to_ref();
+                        let d: &[u8] = g.data().data;
+                        d.to_vec()
+                    };
+                    finish(r, declared, vec![bytes])
+                } else {
+                    word.encrypt_sk(m, value, &sp, &enc, &mut src(sh.seed, 3), &mut src(sh.seed, 4), big.borrow());
+                    let declared = word.decrypt_tmp_bytes(m);
+                    let mut out: Vec<u8> = Vec::new();
+                    let r = windowed(declared, w, &mut |s| {
+                        let v = word.decrypt(m, &sp, s);
+                        out = (0..T::BITS as usize).map(|i| v.bit(i)).collect();
+                    });
+                    finish(r, declared, vec![out])
+                }
             }
 
             /// poulpy-bin-fhe: operations selected / rotated by the bits of an encrypted word (the shared 8-bit word of the context).
@@ -1671,10 +1753,26 @@ macro_rules! core_ops3_impl {
                 let b = 13u32;
                 let k = b * (1 + sh.extra % 3) - (sh.seed % 5) as u32;
                 let infos = gl(sh.n, b, k, 1);
-                let bit_rsh = (sh.extra as usize >> 2) % 3;
-                let bit_mask = 1 + (sh.seed as usize >> 12) % 3;
-                let bit_lsh = (sh.seed as usize >> 16) % 2;
-                let sign = sh.seed & (1 << 20) != 0;
+                // bit window of the 8-bit selector word: `bit_mask` bits starting at `bit_rsh`, anywhere up to the end of
+                // the word (`bit_rsh + bit_mask <= T::BITS`), an empty window included; `wide`: up to the whole word
+                let window = |max_mask: usize| -> (usize, usize) {
+                    let bit_mask = match (sh.seed >> 12) % 8 {
+                        0 => 0,
+                        1 => max_mask,
+                        _ => 1 + (sh.seed as usize >> 15) % max_mask,
+                    };
+                    let bit_rsh = match (sh.seed >> 20) % 4 {
+                        0 => 0,
+                        1 => 8 - bit_mask,
+                        _ => (sh.seed as usize >> 22) % (8 - bit_mask + 1),
+                    };
+                    (bit_rsh, bit_mask)
+                };
+                // rotations: one cmux per bit, so the whole word is affordable; the exponent is shifted by up to
+                // log2(2N) + 1 bits (the rotation is taken mod 2N)
+                let (bit_rsh, bit_mask) = window(8);
+                let bit_lsh = (sh.seed as usize >> 26) % (sh.n.trailing_zeros() as usize + 3);
+                let sign = sh.seed & (1 << 30) != 0;
                 let mk = |i: u64| -> GLWE<Vec<u8>> {
                     let mut ct: GLWE<Vec<u8>> = GLWE::alloc_from_infos(&infos);
                     ct.fill_uniform(b as usize, &mut src(sh.seed ^ (i << 32), 6));
@@ -1682,6 +1780,8 @@ macro_rules! core_ops3_impl {
                 };
                 let r = match op {
                     "glwe_blind_selection" => {
+                        // 2^bit_mask candidates: at most 32
+                        let (bit_rsh, bit_mask) = window(5);
                         let count = 1 << bit_mask;
                         let keep = sh.seed >> 24;
                         let mut cts: Vec<(usize, GLWE<Vec<u8>>)> =
@@ -1714,7 +1814,9 @@ macro_rules! core_ops3_impl {
                         }
                     }
                     "glwe_blind_retrieval_statefull" | "glwe_blind_retrieval_statefull_rev" => {
-                        let count = 1 + (sh.seed as usize >> 24) % (1 << bit_mask);
+                        // the vector may hold fewer (or, harmlessly, more) entries than 2^bit_mask
+                        let (bit_rsh, bit_mask) = window(5);
+                        let count = 1 + (sh.seed as usize >> 32) % ((1 << bit_mask) + 1);
                         let mut cts: Vec<GLWE<Vec<u8>>> = (0..count).map(|i| mk(i as u64)).collect();
                         let declared = m.glwe_blind_retrieval_tmp_bytes(&infos, &c.ggsw_infos);
                         let r = if op == "glwe_blind_retrieval_statefull" {
@@ -1725,7 +1827,10 @@ macro_rules! core_ops3_impl {
                         finish(r, declared, cts.iter().map(|x| x.data().data.clone()).collect())
                     }
                     "glwe_blind_retriever_retrieve" => {
-                        let count = 1 + (sh.seed as usize >> 24) % 6;
+                        // 1..=17 entries (up to five accumulator levels); the selector bits used are offset..offset+levels
+                        let count = 1 + (sh.seed as usize >> 32) % 17;
+                        let levels = (u32::BITS - (count.max(2) as u32 - 1).leading_zeros()) as usize;
+                        let bit_rsh = draw::index(sh.seed >> 20, 8 - levels + 1);
                         let cts: Vec<GLWE<Vec<u8>>> = (0..count).map(|i| mk(i as u64)).collect();
                         let mut retriever = GLWEBlindRetriever::alloc(&infos, count.max(2));
                         let mut res: GLWE<Vec<u8>> = GLWE::alloc_from_infos(&infos);
